@@ -461,9 +461,14 @@ def _uses_are_clean(prog: Program, f: FunctionInfo, call: ast.Call) -> tuple[str
     return "; ".join(notes), ok
 
 
-def _consumers_sort_totally(prog: Program, g: FunctionInfo, depth: int = 0) -> bool:
-    """Every in-module path from generator g to an external consumer passes a sorted(..., key=<total key>) call."""
-    if depth > 3:
+def _consumers_sort_totally(prog: Program, g: FunctionInfo, depth: int = 0, visiting: frozenset = frozenset()) -> bool:
+    """Every in-module path from generator g to an external consumer passes a sorted(..., key=<total key>) call.  A function that uses g's items
+    without sorting them is taken to hand their order on (yield from, or collecting and yielding again): its own consumers are followed; a function
+    already being followed adds no new consumer (helpers that call each other)."""
+    if g.qualname in visiting:
+        return True
+    visiting = visiting | {g.qualname}
+    if depth > 6:
         return False
     mod = g.module
     users = []
@@ -496,8 +501,8 @@ def _consumers_sort_totally(prog: Program, g: FunctionInfo, depth: int = 0) -> b
             return False
         if h is g:
             continue  # recursion: judged at the outer call
-        if h.is_generator and any(isinstance(x, ast.YieldFrom) and x.value is c for x in walk_no_nested(h.node)):
-            if not _consumers_sort_totally(prog, h, depth + 1):
+        if h.name.startswith("_") or h.is_generator:
+            if not _consumers_sort_totally(prog, h, depth + 1, visiting):
                 return False
             continue
         return False
